@@ -1483,8 +1483,19 @@ func (env *SpecEnv) pkgFuncCall(pkg, name string, args []TV) (TV, error) {
 			if f, ok := pk.Scope().Lookup(name).(*types.Func); ok {
 				sig := f.Type().(*types.Signature)
 				var ts []T
-				for _, a := range args {
-					ts = append(ts, a.t)
+				for i, a := range args {
+					t := a.t
+					// the variadic arguments of f(x, a, b) are boxed exactly as the call in the code boxes them
+					if sig.Variadic() && i >= sig.Params().Len()-1 && a.typ != nil && t.sort != SVal && t.sort != "nil" {
+						if st, ok := sig.Params().At(sig.Params().Len() - 1).Type().(*types.Slice); ok {
+							if _, isIface := st.Elem().Underlying().(*types.Interface); isIface {
+								if _, argIface := a.typ.Underlying().(*types.Interface); !argIface {
+									t = env.ex.vc.box(t, a.typ)
+								}
+							}
+						}
+					}
+					ts = append(ts, t)
 				}
 				rs := env.ex.pureCall(env.st, full, sig, ts)
 				if len(rs) > 0 {
